@@ -48,9 +48,22 @@ def build_program(r):
     targets = []       # lvalue expr in main
     watch = []         # (lvalue, type, initial) printed afterwards besides targets
     used_rec = used_arr = 0
+    noinit = {}        # repr(lvalue) -> default value: not assigned before the INPUT
     for i, t in enumerate(tys):
-        kind = r.choice(('scalar', 'scalar', 'elem', 'field'))
-        if kind == 'scalar':
+        # (not in a GOSUB routine: the routine's text follows the tail that
+        # prints the element, and qbee sets an implicit array up at its first
+        # use in text order)
+        kind = r.choice(('scalar', 'scalar', 'elem', 'field', 'ielem')
+                        if r.random() < 0.4 and place != 'gosub'
+                        else ('scalar', 'scalar', 'elem', 'field'))
+        if kind == 'ielem':
+            # element of an array that is never DIMmed (0 TO 10); the INPUT
+            # statement is its first use
+            name = f'im{i}{t}'
+            lv = ['idx', name, [['lit', '%', r.choice((0, 3, 10))]]]
+            targets.append(lv)
+            noinit[repr(lv)] = '' if t == '$' else 0
+        elif kind == 'scalar':
             name = f't{i}{t}'
             targets.append(['var', name])
         elif kind == 'elem':
@@ -101,18 +114,22 @@ def build_program(r):
         if key in done or (dep and dep['kind'] == 'index' and lv == targets[1]):
             continue
         done.add(key)
+        if key in noinit:
+            continue
         v = INIT[t]
         if dep and dep['kind'] == 'index' and lv == ['var', 'ix%']:
             v = dep['lb']          # a valid subscript before the INPUT, too
         main.append({'k': 'let', 'lv': lv, 'e': ['lit', t, v]})
     if handler:
         main.append({'k': 'onerr', 'mode': 'goto', 'label': 'hnd'})
-    pk = r.choice(('none', 'semi', 'comma', 'lead'))
+    # prompt form and the leading (same-line) semicolon are independent:
+    # INPUT x / INPUT "p"; x / INPUT "p", x, each with and without `;` in front
+    pk = r.choice(('none', 'semi', 'comma', 'semi', 'comma'))
     inp = {'k': 'input', 'lvs': targets, 'prompt': None, 'psep': ';', 'semi': False}
-    if pk in ('semi', 'comma', 'lead'):
+    if pk in ('semi', 'comma'):
         inp['prompt'] = r.choice(('p', 'Enter value', 'a, b', '?', '', ''))
         inp['psep'] = ',' if pk == 'comma' else ';'
-    if pk == 'lead':
+    if r.random() < 0.3:
         inp['semi'] = True
     procs = []
     main.append({'k': 'print', 'items': [[['lit', '$', '<S>'], '']]})
@@ -157,7 +174,7 @@ def build_program(r):
     spec = {'types': tys, 'prompt': inp['prompt'], 'psep': inp['psep'], 'lead': inp['semi'],
             'place': place, 'handler': handler, 'dep': dep,
             'targets': targets, 'shown': shown,
-            'watch': [[t, INIT[t]] for _, t in watch]}
+            'watch': [[t, INIT[t]] for _, t in watch], 'init': noinit}
     return prog, spec
 
 
@@ -461,7 +478,7 @@ def expected_shown(spec, values):
         return ('f', repr(lv))
     dep = spec.get('dep')
     for (lv, t) in spec['shown']:
-        env.setdefault(key(lv), expected_value(t, INIT[t]))
+        env.setdefault(key(lv), expected_value(t, spec.get('init', {}).get(repr(lv), INIT[t])))
     if dep and dep['kind'] == 'index':
         env[('v', 'ix%')] = dep['lb']
     if values is not None:
